@@ -201,10 +201,10 @@ Definition c19_deepcopy (h : c19_heap) (d : nat) : c19_heap * nat :=
   | _ => c19_alloc h (C19Ds [] 0)
   end.
 
-(* Grid.copy() as written: Grid(self._ds, ...) — the new Grid points at the same Dataset *)
-Definition c19_copy_faithful (h : c19_heap) (d : nat) : c19_heap * nat := (h, d).
-(* repaired: Grid(self._ds.copy(deep=True), ...) *)
-Definition c19_copy_fixed (h : c19_heap) (d : nat) : c19_heap * nat := c19_deepcopy h d.
+(* Grid.copy(): Grid(self._ds.copy(deep=True), ...).  (Grid.__init__ then takes one more shallow
+   copy of that fresh dataset and runs the longitude pass, which finds nothing to do on a grid
+   whose longitudes are already in range: observationally the deep copy itself.) *)
+Definition c19_copy (h : c19_heap) (d : nat) : c19_heap * nat := c19_deepcopy h d.
 
 (* ---- _replace_fill_values / _process_connectivity (values are modelled concretely) ---- *)
 Definition c19_replace_fill (x : list Z) (orig : Z) : list Z :=
@@ -217,29 +217,31 @@ Definition c19_std_conn (x : list Z) (orig : Z) (si : Z) : list Z :=
 Definition c19_buf_data (h : c19_heap) (i : nat) : list Z :=
   match c19_get h i with Some (C19Buf x) => x | _ => [] end.
 
-(* fv = None  : no fill value given.  dtype_std: the array already has dtype INT_DTYPE *)
+(* fv = None  : no fill value given.  dtype_std: the array already has dtype INT_DTYPE.
+   The function starts with conn = np.array(conn, copy=True): everything below works on that copy. *)
 Definition c19_process_connectivity (h : c19_heap) (conn : nat) (dtype_std : bool)
-           (fv : option Z) (si : Z) : c19_heap * nat :=
-  let x := c19_buf_data h conn in
-  match fv with
-  | None => c19_alloc h (C19Buf (map (fun v => v - si) x))          (* conn - start_index *)
-  | Some o =>
-      if o =? FILL then
-        (c19_upd h conn (C19Buf (c19_sub_start x si)), conn)          (* conn[conn != F] -= si, in place *)
-      else if dtype_std then
-        (c19_upd h conn (C19Buf (c19_std_conn x o si)), conn)         (* replace in place, subtract in place *)
-      else
-        c19_alloc h (C19Buf (c19_std_conn x o si))                    (* astype copies first *)
-  end.
-
-(* repaired: work on a copy of the caller's array *)
-Definition c19_process_connectivity_fixed (h : c19_heap) (conn : nat) (dtype_std : bool)
            (fv : option Z) (si : Z) : c19_heap * nat :=
   let x := c19_buf_data h conn in
   match fv with
   | None => c19_alloc h (C19Buf (map (fun v => v - si) x))
   | Some o => if o =? FILL then c19_alloc h (C19Buf (c19_sub_start x si))
               else c19_alloc h (C19Buf (c19_std_conn x o si))
+  end.
+
+(* the same helper WITHOUT the protective copy (what it was before commit 75630b91, and what a
+   regression would be): in place whenever a fill value is given and no astype copy happens *)
+Definition c19_process_connectivity_nocopy (h : c19_heap) (conn : nat) (dtype_std : bool)
+           (fv : option Z) (si : Z) : c19_heap * nat :=
+  let x := c19_buf_data h conn in
+  match fv with
+  | None => c19_alloc h (C19Buf (map (fun v => v - si) x))
+  | Some o =>
+      if o =? FILL then
+        (c19_upd h conn (C19Buf (c19_sub_start x si)), conn)
+      else if dtype_std then
+        (c19_upd h conn (C19Buf (c19_std_conn x o si)), conn)
+      else
+        c19_alloc h (C19Buf (c19_std_conn x o si))
   end.
 
 (* ---- generic construction of a Dataset from sources ----
@@ -274,7 +276,7 @@ Definition c19_new_ds (h : c19_heap) (l : list (Z * c19_src * list (Z * Z))) (ga
   let '(h2, a) := c19_alloc h1 (C19Dict gattrs) in
   c19_alloc h2 (C19Ds vars a).
 
-(* ---- Grid.__init__: adopts grid_ds; _set_desired_longitude_range ---- *)
+(* ---- Grid.__init__: self._ds = grid_ds.copy() ; _set_desired_longitude_range ---- *)
 (* longitudes are integer micro-degrees *)
 Definition c19_wrap_lon (x : list Z) : list Z :=
   map (fun v => (v + 180000000) mod 360000000 - 180000000) x.
@@ -301,54 +303,8 @@ Definition c19_fix_lon (h : c19_heap) (d : nat) (name : Z) : c19_heap :=
   | _ => h
   end.
 
-(* Grid(grid_ds): self._ds = grid_ds (same object) ; then the longitude range pass *)
-Definition c19_grid_init (h : c19_heap) (d : nat) : c19_heap * nat :=
-  (c19_fix_lon (c19_fix_lon (c19_fix_lon h d c19_NODE_LON) d c19_EDGE_LON) d c19_FACE_LON, d).
-
-(* repaired: adopt a shallow copy would not be enough for later in-place writes; deep copy *)
-Definition c19_grid_init_fixed (h : c19_heap) (d : nat) : c19_heap * nat :=
-  let '(h1, d1) := c19_deepcopy h d in c19_grid_init h1 d1.
-
-(* ---- Grid.from_topology ---- *)
-Definition c19_FNC : Z := 10.
-Definition c19_NODE_LAT : Z := 4.
-
-(* container kind of an argument: an ndarray is wrapped by xr.DataArray without copying, a
-   list / tuple is converted into a new array *)
-Definition c19_wrap_input (h : c19_heap) (is_array : bool) (b : nat) : c19_src :=
-  if is_array then C19Alias b else C19Fresh (c19_buf_data h b).
-
-(* conns = connectivity arguments (face_node_connectivity first, then kwargs), each processed by
-   _process_connectivity; coords = coordinate arguments (node_lon, node_lat, kwargs) with their
-   container kind *)
-Fixpoint c19_process_all (fixed : bool) (h : c19_heap) (l : list (Z * nat)) (dtype_std : bool)
-         (fv : option Z) (si : Z) : c19_heap * list (Z * c19_src * list (Z * Z)) :=
-  match l with
-  | [] => (h, [])
-  | (n, b) :: t =>
-      let '(h1, r) := if fixed then c19_process_connectivity_fixed h b dtype_std fv si
-                      else c19_process_connectivity h b dtype_std fv si in
-      let '(h2, t') := c19_process_all fixed h1 t dtype_std fv si in
-      (h2, (n, C19Alias r, [(0, 0)]) :: t')
-  end.
-
-(* conn_is_array = false: `list - int` / `list.dtype` raise before anything is built -> None *)
-Definition c19_from_topology_gen (fixed : bool) (h : c19_heap) (coords : list (Z * (bool * nat)))
-           (conn_is_array : bool) (conns : list (Z * nat)) (dtype_std : bool) (fv : option Z) (si : Z)
-  : option (c19_heap * nat) :=
-  if negb conn_is_array then None
-  else
-    let cvars := map (fun nb => (fst nb, c19_wrap_input h (fst (snd nb)) (snd (snd nb)), [(0, 0)])) coords in
-    let '(h1, cv) := c19_process_all fixed h conns dtype_std fv si in
-    let '(h2, d) := c19_new_ds h1 (cvars ++ cv) [] in
-    Some (c19_grid_init h2 d).
-
-Definition c19_from_topology := c19_from_topology_gen false.
-Definition c19_from_topology_fixed := c19_from_topology_gen true.
-
-(* ---- Grid.from_dataset, UGRID: _read_ugrid ---- *)
-(* rename / swap_dims: a new Dataset whose Variables are new objects sharing the buffers, with
-   copied attrs dicts *)
+(* Dataset.copy(deep=False) / rename / swap_dims: a new Dataset object whose Variables are new
+   objects sharing the buffers, with copied attrs dicts *)
 Definition c19_shallow_var (h : c19_heap) (v : nat) : c19_heap * nat :=
   match c19_get h v with
   | Some (C19Var b a) =>
@@ -377,22 +333,65 @@ Definition c19_rename_ds (h : c19_heap) (d : nat) : c19_heap * nat :=
   let '(h2, vars') := c19_shallow_vars h1 vars in
   c19_alloc h2 (C19Ds vars' na).
 
+(* Grid(grid_ds): own shallow copy of the dataset (own container, own Variable objects and attrs
+   dicts, arrays shared until replaced), then the longitude range pass on that copy *)
+Definition c19_grid_init (h : c19_heap) (d : nat) : c19_heap * nat :=
+  let '(h1, d1) := c19_rename_ds h d in
+  (c19_fix_lon (c19_fix_lon (c19_fix_lon h1 d1 c19_NODE_LON) d1 c19_EDGE_LON) d1 c19_FACE_LON, d1).
+
+(* ---- Grid.from_topology ---- *)
+Definition c19_FNC : Z := 10.
+Definition c19_NODE_LAT : Z := 4.
+
+(* container kind of an argument: an ndarray is wrapped by xr.DataArray without copying, a
+   list / tuple is converted into a new array *)
+Definition c19_wrap_input (h : c19_heap) (is_array : bool) (b : nat) : c19_src :=
+  if is_array then C19Alias b else C19Fresh (c19_buf_data h b).
+
+(* conns = connectivity arguments (face_node_connectivity first, then kwargs), each processed by
+   _process_connectivity; coords = coordinate arguments (node_lon, node_lat, kwargs) with their
+   container kind *)
+Fixpoint c19_process_all (h : c19_heap) (l : list (Z * nat)) (dtype_std : bool)
+         (fv : option Z) (si : Z) : c19_heap * list (Z * c19_src * list (Z * Z)) :=
+  match l with
+  | [] => (h, [])
+  | (n, b) :: t =>
+      let '(h1, r) := c19_process_connectivity h b dtype_std fv si in
+      let '(h2, t') := c19_process_all h1 t dtype_std fv si in
+      (h2, (n, C19Alias r, [(0, 0)]) :: t')
+  end.
+
+(* conn_is_array = false: np.array(list) is built, so lists work for the connectivity as well *)
+Definition c19_from_topology (h : c19_heap) (coords : list (Z * (bool * nat)))
+           (conns : list (Z * nat)) (dtype_std : bool) (fv : option Z) (si : Z)
+  : c19_heap * nat :=
+  let cvars := map (fun nb => (fst nb, c19_wrap_input h (fst (snd nb)) (snd (snd nb)), [(0, 0)])) coords in
+  let '(h1, cv) := c19_process_all h conns dtype_std fv si in
+  let '(h2, d) := c19_new_ds h1 (cvars ++ cv) [] in
+  c19_grid_init h2 d.
+
+(* ---- Grid.from_dataset, UGRID: _read_ugrid ---- *)
 Definition c19_K_FILLVALUE : Z := 100.
 Definition c19_K_START : Z := 101.
 
 (* int64 wrap-around of numpy arithmetic *)
 Definition c19_wrap64 (z : Z) : Z := (z + 9223372036854775808) mod 18446744073709551616 - 9223372036854775808.
 
-(* new_conn.min(): over ALL entries, fill values included (as the code does) *)
-Definition c19_min_all (x : list Z) : Z :=
-  match x with [] => 0 | v :: t => fold_left Z.min t v end.
+(* new_conn[real_mask].min(): over the real entries; no shift when there is none *)
+Definition c19_min_real (x : list Z) : Z :=
+  match filter (fun v => negb (v =? FILL)) x with
+  | [] => 0
+  | v :: t => fold_left Z.min t v
+  end.
 
 Definition c19_sub_start_wrap (x : list Z) (si : Z) : list Z :=
   map (fun v => if v =? FILL then v else c19_wrap64 (v - si)) x.
 
 (* _standardize_connectivity on variable `name` of the (renamed) dataset d.
-   "_FillValue" / "start_index" are looked up in the variable's attrs. *)
-Definition c19_standardize (fixed : bool) (h : c19_heap) (d : nat) (name : Z) (dtype_std : bool) : c19_heap :=
+   "_FillValue" / "start_index" are looked up in the variable's attrs.
+   conn = ds[name].values.copy(): fill replacement and start-index subtraction work on that copy,
+   ds[name].data = new_conn attaches it, the attrs are updated. *)
+Definition c19_standardize (h : c19_heap) (d : nat) (name : Z) (dtype_std : bool) : c19_heap :=
   match c19_get h d with
   | Some (C19Ds vars a) =>
       match c19_find name vars with
@@ -401,21 +400,16 @@ Definition c19_standardize (fixed : bool) (h : c19_heap) (d : nat) (name : Z) (d
           | Some (C19Var b va) =>
               let kv := match c19_get h va with Some (C19Dict kv) => kv | _ => [] end in
               let ofv := c19_find c19_K_FILLVALUE kv in
-              let std_fv := match ofv with Some o => o =? FILL | None => false end in
-              if dtype_std && std_fv then h     (* nothing done: buffer stays the input's *)
-              else
-                let x := c19_buf_data h b in
-                let x1 := match ofv with Some o => c19_replace_fill x o | None => x end in
-                let si := match c19_find c19_K_START kv with
-                          | Some s => s
-                          | None => c19_min_all x1
-                          end in
-                let x2 := c19_sub_start_wrap x1 si in
-                (* _replace_fill_values works in place unless astype made a copy; then
-                   ds[name].data = new_conn re-attaches the very same array *)
-                let h1 := if dtype_std && negb fixed then c19_upd h b (C19Buf x2)
-                          else c19_apply h d (C19SetData name x2) in
-                c19_apply h1 d (C19SetAttr name c19_K_FILLVALUE FILL)
+              let x := c19_buf_data h b in
+              let x1 := match ofv with Some o => c19_replace_fill x o | None => x end in
+              let si := match c19_find c19_K_START kv with
+                        | Some s => s
+                        | None => c19_min_real x1
+                        end in
+              let x2 := c19_sub_start_wrap x1 si in
+              let h1 := c19_apply h d (C19SetData name x2) in
+              let h2 := c19_apply h1 d (C19SetAttr name c19_K_FILLVALUE FILL) in
+              c19_apply h2 d (C19SetAttr name c19_K_START 0)
           | _ => h
           end
       | None => h
@@ -423,14 +417,11 @@ Definition c19_standardize (fixed : bool) (h : c19_heap) (d : nat) (name : Z) (d
   | _ => h
   end.
 
-Definition c19_read_ugrid_gen (fixed : bool) (h : c19_heap) (d : nat) (conn_names : list Z) (dtype_std : bool)
+Definition c19_read_ugrid (h : c19_heap) (d : nat) (conn_names : list Z) (dtype_std : bool)
   : c19_heap * nat :=
   let '(h1, d1) := c19_rename_ds h d in
-  let h2 := fold_left (fun hh n => c19_standardize fixed hh d1 n dtype_std) conn_names h1 in
+  let h2 := fold_left (fun hh n => c19_standardize hh d1 n dtype_std) conn_names h1 in
   c19_grid_init h2 d1.
-
-Definition c19_read_ugrid := c19_read_ugrid_gen false.
-Definition c19_read_ugrid_fixed := c19_read_ugrid_gen true.
 
 (* ---- table-driven readers (MPAS, Exodus, SCRIP, ESMF, GEOS-CS, ICON) ----
    table: output variable name, and Some input-variable-name when the output wraps the
@@ -474,7 +465,8 @@ Definition c19_ds_gattrs (h : c19_heap) (d : nat) : list (Z * Z) :=
 (* _set_desired_longitude_range decided by a flag: the reader outputs may be strided views of
    the input buffers, so the condition max > 180 is evaluated by the caller on the numeric data *)
 Definition c19_grid_init_flags (h : c19_heap) (d : nat) (over : list Z) : c19_heap * nat :=
-  (fold_left (fun hh n => c19_apply hh d (C19SetData n [n])) over h, d).
+  let '(h1, d1) := c19_rename_ds h d in
+  (fold_left (fun hh n => c19_apply hh d1 (C19SetData n [n])) over h1, d1).
 
 (* copy_gattrs: MPAS `out_ds.attrs = in_ds.attrs` (the Dataset.attrs setter stores dict(value)) *)
 Definition c19_read_table (h : c19_heap) (d : nat) (t : c19_reader_table) (copy_gattrs : bool)
@@ -519,11 +511,11 @@ Definition c19_table_mpas_dual : c19_reader_table :=
    c19_fr 19 221; c19_fr 17 226; c19_fr 20 219;
    c19_al 26 222; c19_al 25 223; c19_al 23 227].
 
-(* Exodus: coord 230 coordx 231 coordy 232 coordz 233 connect1 234.  node_y / node_z of the
-   coordx dialect wrap coordx (the code reads ext_ds.coordx three times) *)
+(* Exodus: coord 230 coordx 231 coordy 232 coordz 233 connect1 234 (DataArrays passed as data wrap
+   the input's buffer) *)
 Definition c19_table_exodus : c19_reader_table :=
   [c19_al 7 230; c19_al 8 230; c19_al 9 230;
-   c19_al 7 231; (8, (true, (231, 232))); (9, (true, (231, 233)));
+   c19_al 7 231; c19_al 8 232; c19_al 9 233;
    c19_fr 10 234; c19_fr 1 234; c19_fr 4 234].
 
 (* SCRIP: grid_corner_lon 240 grid_corner_lat 241 grid_center_lon 242 grid_center_lat 243 grid_area 244 *)
@@ -548,10 +540,10 @@ Definition c19_table_icon : c19_reader_table :=
 Definition c19_table_vertices : c19_reader_table := [c19_fr 1 290; c19_fr 4 290; c19_fr 10 290].
 
 (* export tables over the grid's own dataset: to_xarray("exodus") builds everything anew,
-   to_xarray("scrip") wraps the face_areas buffer as grid_area (244) *)
+   to_xarray("scrip") copies the face areas into grid_area (244) *)
 Definition c19_table_export_exodus : c19_reader_table := [c19_fr 230 10; c19_fr 234 10].
 Definition c19_table_export_scrip : c19_reader_table :=
-  [c19_fr 240 10; c19_fr 241 10; c19_al 244 23; c19_fr 242 10; c19_fr 243 10; c19_fr 245 10].
+  [c19_fr 240 10; c19_fr 241 10; c19_fr 244 23; c19_fr 242 10; c19_fr 243 10; c19_fr 245 10].
 
 Definition c19_table_of (fmt : Z) : c19_reader_table :=
   if fmt =? 1 then c19_table_mpas_primal else if fmt =? 2 then c19_table_mpas_dual
@@ -564,32 +556,13 @@ Definition c19_table_of (fmt : Z) : c19_reader_table :=
 (* ---- exports ---- *)
 Definition c19_GRID_TOPOLOGY : Z := 50.
 
-(* _encode_ugrid(self._ds): when grid_topology is already there, drop_vars makes a new Dataset
-   object and the following ds["grid_topology"] = ... (Dataset.__setitem__ re-creates the
-   Variable objects of the dataset it is applied to) leaves the returned dataset with its own
-   Variable objects and attrs dicts but the grid's buffers; otherwise the assignment is done on
-   the grid's own dataset, which is returned.
-   (Within a single root the re-creation of Variable objects by __setitem__ is not observable,
-   so C19SetVar models only the new entry.) *)
+(* to_xarray("ugrid") / encode_as("UGRID"): _encode_ugrid(self._ds.copy(deep=True)) — on the deep
+   copy an existing grid_topology is dropped and the new one assigned; the result is returned.
+   (drop_vars returns one more Dataset object around the copy's variables; the model keeps the
+   copy's root.) *)
 Definition c19_to_xarray_ugrid (h : c19_heap) (d : nat) : c19_heap * nat :=
-  match c19_get h d with
-  | Some (C19Ds vars a) =>
-      match c19_find c19_GRID_TOPOLOGY vars with
-      | Some _ =>
-          let ac := match c19_get h a with Some c => c | None => C19Dict [] end in
-          let '(h1, na) := c19_alloc h ac in
-          let '(h2, vars') := c19_shallow_vars h1 (c19_del c19_GRID_TOPOLOGY vars) in
-          let '(h3, d2) := c19_alloc h2 (C19Ds vars' na) in
-          (c19_apply h3 d2 (C19SetVar c19_GRID_TOPOLOGY [-1] [(0, 0)]), d2)
-      | None => (c19_apply h d (C19SetVar c19_GRID_TOPOLOGY [-1] [(0, 0)]), d)
-      end
-  | _ => (h, d)
-  end.
-
-(* repaired export: deep copy first *)
-Definition c19_to_xarray_ugrid_fixed (h : c19_heap) (d : nat) : c19_heap * nat :=
   let '(h1, d1) := c19_deepcopy h d in
-  (c19_apply h1 d1 (C19SetVar c19_GRID_TOPOLOGY [-1] [(0, 0)]), d1).
+  (c19_apply (c19_apply h1 d1 (C19DelVar c19_GRID_TOPOLOGY)) d1 (C19SetVar c19_GRID_TOPOLOGY [-1] [(0, 0)]), d1).
 
 (* exports that build a new Dataset from a table (exodus: everything fresh; scrip: grid_area
    wraps the face_areas buffer) *)
